@@ -245,7 +245,7 @@ func New(c *Config) (w *World, err error) {
 	}
 	if hc.RateLimit == nil {
 		hc.RateLimit = &agdtest.RateLimit{
-			OnIsRateLimited: func(context.Context, *dns.Msg, netip.Addr) (bool, bool, error) { return false, false, nil },
+			OnIsRateLimited:  func(context.Context, *dns.Msg, netip.Addr) (bool, bool, error) { return false, false, nil },
 			OnCountResponses: func(context.Context, *dns.Msg, netip.Addr) {},
 		}
 	}
@@ -433,9 +433,14 @@ func (w *World) Serve(ctx context.Context, r *Request) (out *Writer, err error) 
 // NewServerIface returns a plain-DNS server description bound to an
 // interface prefix (dedicated addresses live inside the prefix).
 func NewServerIface(name string, prefix string, port uint16, linkedIP bool) (s *agd.Server) {
+	return NewServerIfaceProto(name, agd.ProtoDNS, prefix, port, linkedIP)
+}
+
+// NewServerIfaceProto is NewServerIface for any protocol.
+func NewServerIfaceProto(name string, proto agd.Protocol, prefix string, port uint16, linkedIP bool) (s *agd.Server) {
 	s = &agd.Server{
 		Name:            agd.ServerName(name),
-		Protocol:        agd.ProtoDNS,
+		Protocol:        proto,
 		LinkedIPEnabled: linkedIP,
 	}
 	// The interface's subnet (dedicated addresses live in it) and the
